@@ -55,6 +55,7 @@ partial def loop (h : IO.FS.Stream) (out : IO.FS.Stream) : IO Unit := do
   let toks := (line.trimAscii.toString.splitOn " ").filter (· ≠ "")
   match toks with
   | ["CASE", id, "timer-real"] => out.putStrLn ("MODEL " ++ id ++ " real")
+  | ["CASE", id, "timer-stopped"] => out.putStrLn ("MODEL " ++ id ++ " stopped")
   | "CASE" :: id :: op :: rest =>
     -- a handler may append further records after a newline ("SPEC ..."): give them the case id too
     let res := handle op rest
